@@ -12,7 +12,8 @@ import (
 // VerifC11LocksV1: the SDK v1 twin of VerifC11Locks.
 func VerifC11LocksV1() {
 	c := vClient(false)
-	_, err := c.PutItem(&dynamodb.PutItemInput{TableName: aws.String(vTbl), Item: vItem{"p": vS("0"), "v": vS("x")}})
+	nd.Assert(AddIndex(c, vTbl, "idx", "g", "") == nil, "setup-addindex")
+	_, err := c.PutItem(&dynamodb.PutItemInput{TableName: aws.String(vTbl), Item: vItem{"p": vS("0"), "v": vS("x"), "g": vS("gv")}})
 	nd.Assert(err == nil, "setup-put")
 	nd.Assert(AddTable(c, "other", "p", "") == nil, "setup-addtable")
 	nd.Track(c)
@@ -32,6 +33,10 @@ func VerifC11LocksV1() {
 			c.Query(&dynamodb.QueryInput{TableName: tbl, KeyConditionExpression: aws.String("p = :p"), ExpressionAttributeValues: vItem{":p": vS(k)}})
 		}},
 		{"Scan", func() { c.Scan(&dynamodb.ScanInput{TableName: tbl}) }},
+		{"QueryIndex", func() {
+			c.Query(&dynamodb.QueryInput{TableName: tbl, IndexName: aws.String("idx"), KeyConditionExpression: aws.String("g = :g"), ExpressionAttributeValues: vItem{":g": vS("gv")}})
+		}},
+		{"ScanIndex", func() { c.Scan(&dynamodb.ScanInput{TableName: tbl, IndexName: aws.String("idx")}) }},
 		{"BatchWriteItem", func() {
 			c.BatchWriteItem(&dynamodb.BatchWriteItemInput{RequestItems: map[string][]*dynamodb.WriteRequest{vTbl: {{PutRequest: &dynamodb.PutRequest{Item: vItem{"p": vS("b")}}}}}})
 		}},
